@@ -23,15 +23,21 @@ Proof.
   intros H; inversion H; subst. split; eapply parse_uint_le; eassumption.
 Qed.
 
-(** Main equation: the code's observable behaviour on a 200 representation equals the
-    specification, for every body (that fits in memory), header and arithmetic mode. *)
-Lemma serve_range_spec checked hdr body :
+(** Main equation: the code's observable behaviour on a representation equals the
+    specification, for every body (that fits in memory), header, status and arithmetic mode. *)
+Lemma serve_range_spec_st checked hdr status body :
   N.of_nat (length body) <= u64_max ->
-  serve_range checked hdr 200 body = Ok (range_spec (denoted hdr) body).
+  serve_range checked hdr status body = Ok (range_spec_st status (denoted hdr) body).
 Proof.
-  intros Hlen. unfold serve_range, sanitize_range, denoted.
-  destruct hdr as [v|]; [|reflexivity].
-  destruct (parse_range v) as [[a c]|] eqn:Hp; [|reflexivity].
+  intros Hlen. unfold serve_range, sanitize_range, denoted, range_spec_st.
+  destruct hdr as [v|].
+  2:{ cbn [range_spec apply_range r_status r_content_range r_accept_ranges r_body].
+      destruct (N.eqb status 200) eqn:Hs; [|reflexivity].
+      apply N.eqb_eq in Hs. subst status. reflexivity. }
+  destruct (parse_range v) as [[a c]|] eqn:Hp.
+  2:{ cbn [range_spec apply_range r_status r_content_range r_accept_ranges r_body].
+      destruct (N.eqb status 200) eqn:Hs; [|reflexivity].
+      apply N.eqb_eq in Hs. subst status. reflexivity. }
   apply parse_range_bounds in Hp as [Ha Hc].
   unfold range_spec.
   destruct (N.ltb_spec c a) as [Hlt|Hge].
@@ -50,12 +56,22 @@ Proof.
       unfold slice_chk, slice_get.
       replace (Nat.leb (N.to_nat a) (N.to_nat e)) with true by lia.
       replace (Nat.leb (N.to_nat e) (length body)) with true by lia.
-      cbn [andb obind]. unfold slice.
-      replace (N.eqb 200 200) with true by reflexivity.
+      cbn [andb obind r_status r_content_range r_accept_ranges r_body]. unfold slice.
       replace (e - 1) with (N.min c (len - 1)) by lia.
       replace (N.to_nat e - N.to_nat a)%nat with (N.to_nat (N.min c (len - 1) - a + 1)) by lia.
       reflexivity.
 Qed.
+
+Lemma range_spec_st_200 range body : range_spec_st 200 range body = range_spec range body.
+Proof.
+  unfold range_spec_st. destruct (range_spec range body) as [|r]; [reflexivity|].
+  destruct r; reflexivity.
+Qed.
+
+Lemma serve_range_spec checked hdr body :
+  N.of_nat (length body) <= u64_max ->
+  serve_range checked hdr 200 body = Ok (range_spec (denoted hdr) body).
+Proof. intros H. rewrite serve_range_spec_st by assumption. rewrite range_spec_st_200. reflexivity. Qed.
 
 (** No panic, whatever the header and the body (C02 uses this). *)
 Lemma serve_range_no_panic checked hdr body :
